@@ -281,6 +281,15 @@ def ops_of_stream(s, rng=None, p_fin=0.0):
 # G-SML: random SML files (AST -> random valid encoding) and mutations
 # The canonical text rendering below must equal what the harness/driver print (parse suite).
 # ==========================================================================================
+# encoding style knobs (see gen_file): probability of a non-minimal TLF; scale on the "absent" probability
+# of optional fields (0 = everything present, large = everything absent); compact = shortest contents
+STYLE = dict(nonmin=None, absent=1.0, compact=False)
+
+
+def absent(rng, p):
+    return rng.random() < min(1.0, p * STYLE["absent"])
+
+
 def tlf_bytes(tycode, V, k):
     """k-byte TLF whose nibbles spell V (V < 16**k)"""
     nibs = [(V >> (4 * (k - 1 - i))) & 0xF for i in range(k)]
@@ -297,8 +306,12 @@ def prim_tlf(rng, tycode, length, nonmin=0.12):
     k = 1
     while length + k >= 16 ** k:
         k += 1
+    if STYLE["nonmin"] is not None:
+        nonmin = STYLE["nonmin"]
     if rng.random() < nonmin and tycode != 4:
         k += rng.randint(1, 2)
+        while length + k >= 16 ** k:
+            k += 1
     return tlf_bytes(tycode, length + k, k)
 
 
@@ -306,13 +319,15 @@ def list_tlf(rng, n, nonmin=0.12):
     k = 1
     while n >= 16 ** k:
         k += 1
+    if STYLE["nonmin"] is not None:
+        nonmin = STYLE["nonmin"]
     if rng.random() < nonmin:
         k += rng.randint(1, 2)
     return tlf_bytes(7, n, k)
 
 
 def rnd_bytes(rng, lo, hi):
-    n = rng.randint(lo, hi)
+    n = lo if STYLE["compact"] else rng.randint(lo, hi)
     return bytes(rng.getrandbits(8) for _ in range(n))
 
 
@@ -326,7 +341,7 @@ def enc_octet(rng, b):
 
 def opt_octet(rng, p_none=0.4, lo=0, hi=12):
     """returns (text, encoding)"""
-    if rng.random() < p_none:
+    if absent(rng, p_none):
         return "~", b"\x01"
     b = rnd_bytes(rng, lo, hi)
     if len(b) == 0:
@@ -380,7 +395,7 @@ def gen_time(rng):
 
 
 def opt_time(rng, p_none=0.5):
-    if rng.random() < p_none:
+    if absent(rng, p_none):
         return "~", b"\x01"
     return gen_time(rng)
 
@@ -389,6 +404,9 @@ WCLASS = {8: (1, 1), 16: (2, 2), 32: (3, 4), 64: (5, 8)}
 
 
 def gen_value(rng):
+    if STYLE["compact"]:
+        v = rng.getrandbits(8)
+        return "U8:%x" % v, bytes([0x62, v])
     r = rng.randrange(12)
     if r == 0:
         b = rng.getrandbits(8) if rng.random() < 0.7 else 0
@@ -428,17 +446,17 @@ def gen_status(rng):
 def gen_list_entry(rng):
     """returns (text, [chunks])"""
     name = rnd_bytes(rng, 0, 8)
-    if rng.random() < 0.5:
+    if absent(rng, 0.5):
         st, ste = "~", b"\x01"
     else:
         st, ste = gen_status(rng)
     vt, vte = opt_time(rng, 0.7)
-    if rng.random() < 0.5:
+    if absent(rng, 0.5):
         un, une = "~", b"\x01"
     else:
         u = rng.getrandbits(8)
         un, une = "%x" % u, enc_uint(rng, u, 1, 1)
-    if rng.random() < 0.5:
+    if absent(rng, 0.5):
         sc, sce = "~", b"\x01"
     else:
         s = rnd_int(rng, 8)
@@ -465,7 +483,7 @@ def gen_message(rng, kind=None, nentries=None):
         rf = rnd_bytes(rng, 0, 8)
         si = rnd_bytes(rng, 0, 10)
         rt, rte = opt_time(rng)
-        if rng.random() < 0.6:
+        if absent(rng, 0.6):
             sv, sve = "~", b"\x01"
         else:
             v = rng.getrandbits(8)
@@ -510,17 +528,33 @@ def close_message(rng, chunks, good_crc=True):
     return pre + prim_tlf(rng, 6, 2, nonmin=0.05) + c.to_bytes(2, "big") + b"\x00"
 
 
-def gen_file(rng, nmsgs=None):
-    """returns (bytes, expected complete text, expected event list, messages)"""
-    nmsgs = nmsgs if nmsgs is not None else rng.choice([0, 1, 1, 2, 3, 3, 4])
-    msgs = []
-    if nmsgs >= 3 and rng.random() < 0.6:
-        kinds = ["open"] + ["list"] * (nmsgs - 2) + ["close"]
-    else:
-        kinds = [None] * nmsgs
-    for k in kinds:
-        msgs.append(gen_message(rng, k))
-    data = b"".join(close_message(rng, m["chunks"]) for m in msgs)
+def gen_file(rng, nmsgs=None, style=None):
+    """returns (bytes, expected complete text, expected event list, messages).
+    style: None = random mix; "compact" = shortest possible encodings (all optionals absent, empty strings,
+    one-byte values, minimal TLFs), get-list response last; "bulky" = everything present, every TLF non-minimal"""
+    if style is None:
+        r = rng.random()
+        style = "compact" if r < 0.08 else ("bulky" if r < 0.16 else "random")
+    saved = dict(STYLE)
+    try:
+        if style == "compact":
+            STYLE.update(nonmin=0.0, absent=1000.0, compact=True)
+        elif style == "bulky":
+            STYLE.update(nonmin=1.0, absent=0.0, compact=False)
+        nmsgs = nmsgs if nmsgs is not None else rng.choice([0, 1, 1, 2, 3, 3, 4])
+        msgs = []
+        if style == "compact" and nmsgs >= 1:
+            kinds = [None] * (nmsgs - 1) + ["list"]
+        elif nmsgs >= 3 and rng.random() < 0.6:
+            kinds = ["open"] + ["list"] * (nmsgs - 2) + ["close"]
+        else:
+            kinds = [None] * nmsgs
+        for k in kinds:
+            msgs.append(gen_message(rng, k))
+        data = b"".join(close_message(rng, m["chunks"]) for m in msgs)
+    finally:
+        STYLE.clear()
+        STYLE.update(saved)
     text = "ok:" + (" ".join(m["text"] for m in msgs) if msgs else ".")
     events = [e for m in msgs for e in m["events"]]
     return data, text, events, msgs
@@ -535,8 +569,22 @@ HUGE_TLFS = [bytes.fromhex(x) for x in [
 def mutate_message(rng, m):
     """mutate the pre-CRC chunks of a message; returns (new chunk list, description)"""
     ch = [bytes(c) for c in m["chunks"]]
-    kind = rng.randrange(10)
+    kind = rng.randrange(12)
     i = rng.randrange(len(ch))
+    if kind in (10, 11):
+        # re-encode the one-byte TLF at the head of a field in a longer form spelling the same length: a valid
+        # alternative encoding for strings, integers and lists, a reserved one for booleans
+        idx = [j for j, c in enumerate(ch) if c and c[0] != 0x01 and not (c[0] & 0x80)]
+        if idx:
+            j = rng.choice(idx)
+            b = ch[j]
+            ty, v = (b[0] >> 4) & 7, b[0] & 0xF
+            k = rng.choice([2, 2, 3, 4])
+            if ty == 7:
+                ch[j] = tlf_bytes(7, v, k) + b[1:]
+            elif v >= 1:
+                ch[j] = tlf_bytes(ty, v - 1 + k, k) + b[1:]
+        return ch, "retlf"
     if kind == 0:
         b = bytearray(ch[i])
         if b:
@@ -603,6 +651,13 @@ def gen_mutant(rng):
         return data[:rng.randrange(len(data))], "raw-truncate"
     if r < 0.24:
         return data + rnd_bytes(rng, 1, 4), "raw-extend"
+    if r < 0.30:
+        # cut exactly at a field boundary (in particular: before the checksum field, after a complete list entry)
+        j = rng.randrange(len(msgs))
+        out = b"".join(close_message(rng, m["chunks"]) for m in msgs[:j])
+        ch = msgs[j]["chunks"]
+        cut = rng.choice([len(ch), len(ch), rng.randrange(len(ch) + 1)])
+        return out + b"".join(ch[:cut]), "cut-at-field"
     j = rng.randrange(len(msgs))
     ch, desc = mutate_message(rng, msgs[j])
     good = rng.random() < 0.75
